@@ -126,6 +126,8 @@ def build(repo):
             (res is Ok && load) ==> final(self).flags == FlagsState::Unknown, //@ C18,C01:load-flags
             // TAX / TAY set N and Z from the accumulator: whatever the generator believed about them is gone
             (res is Ok && (expr is X || expr is Y)) ==> final(self).flags == FlagsState::Unknown, //@ C01,C18:register-transfer-forgets-flags
+            // a store to memory: a belief that N/Z describe a memory cell may be about the cell just overwritten
+            (res is Ok && !load && !(expr is X || expr is Y)) ==> (final(self).flags is A || final(self).flags is X || final(self).flags is Y || final(self).flags is Unknown), //@ C01,C18:store-to-memory-drops-memory-belief
             res is Err ==> final(self).out.code@ == old(self).out.code@,
 """, expect_sig="fn generate_load_store_statement( &mut self, expr: &ExprType, pos: usize, load: bool, ) -> Result<(), Error>")
     ls.body_start("        let ghost c0 = self.out.code@;\n        proof { reveal_strlit(\"\"); assert(added(c0, c0) =~= Seq::<AsmLine>::empty()); }")
@@ -164,6 +166,8 @@ def build(repo):
         ensures res is Ok,
             extends(old(self).out.code@, final(self).out.code@) && added(old(self).out.code@, final(self).out.code@).len() == 1, //@ C18:asm-stmt-once
             (match final(self).out.code@[old(self).out.code@.len() as int] { AsmLine::Inline(t, n) => t@ == s@ && n == (match size { Some(k) => k, None => 3u32 }), _ => false }), //@ C18,C04:asm-stmt-verbatim
+            // inline assembly can change any register and any flag
+            final(self).flags == FlagsState::Unknown && !final(self).carry_flag_ok, //@ C01,C18:asm-statement-forgets-flags
 """, expect_sig="fn generate_asm_statement(&mut self, s: &str, size: Option<u32>) -> Result<(), Error>")
     parts.append(am.text)
     text = common.PRELUDE + common.header_comment(NAME, cuts) + "verus! {\n" + e["types"] + "\n" + "\n".join(tys) + e["specs"] + e["append_impl"] + e["shim"] + SPECS + \
